@@ -208,7 +208,7 @@ def gen_sa_tight(rng, idx):
     cores = rng.choice([3, 4, 6])
     m = par.gen_machine(rng, max_w=4, max_h=4, min_w=2, min_h=2,
                         res={"Cores": cores, "SDRAM": 10}, p_dead=.3,
-                        p_exc=.4)
+                        p_exc=.6)
     chips = par.live_chips(m)
     cons = par.gen_reservations(rng, m, n_max=2) if rng.random() < .4 else []
     vertices = []
